@@ -269,6 +269,17 @@ def gen_cases(tier: str, seed: int):
     n = {"quick": 96, "thorough": 1200}[tier]
     rng = np.random.default_rng([seed, 1])
     maxd = {"quick": 3, "thorough": 4}[tier]
+    # directed family: anisotropic Gaussian targets, depth 3, overlapping sub-tree checks on -- configurations in which a
+    # 4-state tree passes the whole-tree criterion but an overlapping 3-state check fires (the doubling logic's hard case)
+    k = 0
+    for crit in ("euclidean", "riemannian"):
+        for frac in (0.5, 0.75, 1.0, 1.25, 1.6):
+            for tk in ("multinomial", "slice"):
+                k += 1
+                yield {"transition": tk, "source": "real", "seed": [seed, 7000 + k], "depth": 3, "extra_checks": True,
+                       "max_delta_h": 1000.0, "criterion": crit, "frac": frac,
+                       "spec": {"sys": "euclidean", "dim": 2, "seed": 50 + k % 4, "linear": "aniso", "metric": "none", "conv": {}},
+                       "ispec": {"int": "leapfrog", "tight": True}}
     for i in range(n):
         tkind = ["static", "random", "multinomial", "slice", "multinomial", "slice"][i % 6]
         source = ["real", "double", "real", "double", "direct"][i % 5]
